@@ -3,6 +3,7 @@ package world
 import (
 	"context"
 	"errors"
+	"fmt"
 	"slices"
 	"time"
 
@@ -123,6 +124,12 @@ func (s *Store) vetoLocked(method string) error {
 			s.Journal[i].Err = "policy-veto"
 			break
 		}
+	}
+	switch s.Policy.VetoError {
+	case "plain":
+		return errors.New("simstore: exchange not permitted by policy")
+	case "canceled":
+		return fmt.Errorf("simstore: policy lookup aborted: %w", context.Canceled)
 	}
 	return oidc.ErrAccessDenied().WithDescription("exchange not permitted by policy")
 }
